@@ -289,3 +289,12 @@ def test_fixed_F26_value_iteration_policy_at_trap_states_with_partial_action_set
                  {(0, 'a'): -1.0, (0, 'c'): -2.0, (2, 'a'): -1.0, (2, 'b'): -1.0}, {0: 1.0}, absorbing=[1])
     pol = ValueIteration().plan_on(m).policy
     assert {a: p for a, p in pol[2].items() if p > 0} == {'a': 0.5, 'b': 0.5}
+
+
+def test_fixed_F27_zero_probability_entry_in_the_initial_distribution():
+    from msdm.algorithms import ValueIteration, PolicyIteration
+    m = Dict2MDP({'s': {'a': {'g': 1.0}}, 'g': {'a': {'g': 1.0}}, 'ghost': {'a': {'ghost': 1.0}}}, {('s', 'a'): -1.0},
+                 {'s': 1.0, 'ghost': 0.0}, absorbing=['g'], gamma=0.9)
+    assert 'ghost' not in m.state_list
+    assert ValueIteration().plan_on(m).initial_value == pytest.approx(-1.0)
+    assert PolicyIteration().plan_on(m).initial_value == pytest.approx(-1.0)
